@@ -32,6 +32,18 @@ pub struct ContextHandle {
 }
 
 impl ContextHandle {
+    /// Allocates the next packet identifier. Zero is not a valid identifier,
+    /// so it is skipped when the counter wraps around.
+    ///
+    fn next_packet_id(&self) -> u16 {
+        loop {
+            let id = self.packet_id.fetch_add(1, Ordering::Relaxed);
+            if id != 0 {
+                return id;
+            }
+        }
+    }
+
     /// Verification hook (only with `--cfg poster_verif`): presets the packet and subscription
     /// identifier counters, to start next to their wrap-around.
     ///
@@ -118,7 +130,7 @@ impl ContextHandle {
             }
             QoS::AtLeastOnce => {
                 let packet = opts
-                    .packet_identifier(self.packet_id.fetch_add(1, Ordering::Relaxed))
+                    .packet_identifier(self.next_packet_id())
                     .build()?;
 
                 let mut buf = BytesMut::with_capacity(packet.packet_len());
@@ -150,7 +162,7 @@ impl ContextHandle {
             }
             QoS::ExactlyOnce => {
                 let packet = opts
-                    .packet_identifier(self.packet_id.fetch_add(1, Ordering::Relaxed))
+                    .packet_identifier(self.next_packet_id())
                     .build()?;
 
                 let mut buf = BytesMut::with_capacity(packet.packet_len());
@@ -235,7 +247,7 @@ impl ContextHandle {
         let (str_sender, str_receiver) = mpsc::unbounded();
 
         let packet = opts
-            .packet_identifier(self.packet_id.fetch_add(1, Ordering::Relaxed))
+            .packet_identifier(self.next_packet_id())
             .subscription_identifier(self.sub_id.fetch_add(1, Ordering::Relaxed))
             .build()?;
 
@@ -278,7 +290,7 @@ impl ContextHandle {
         let (sender, receiver) = oneshot::channel();
 
         let packet = opts
-            .packet_identifier(self.packet_id.fetch_add(1, Ordering::Relaxed))
+            .packet_identifier(self.next_packet_id())
             .build()?;
 
         let mut buf = BytesMut::with_capacity(packet.packet_len());
